@@ -22,7 +22,36 @@ def load_mutants():
         for m in json.load(open(f)):
             m["_file"] = os.path.basename(f)
             out.append(m)
+    # seeded breaking changes written by independent sub-agents (seeded/<id>/): the property's check must keep
+    # reporting them, naming the obligation recorded when the seed was first detected
+    for mf in sorted(glob.glob(os.path.join(VERIF, "seeded", "*", "meta.json"))):
+        try:
+            meta = json.load(open(mf))
+        except Exception:
+            continue
+        if meta.get("obsolete_on_current_tree"):
+            continue
+        prop = meta.get("property")
+        det = (meta.get("detected_by") or {}).get(prop) or {}
+        if det.get("exit") != 1 or not det.get("obligations"):
+            continue
+        sid = os.path.basename(os.path.dirname(mf))
+        # (any obligation of the property may report it: which one fires first depends on how much of the change the
+        # analysis sees through, e.g. a helper introduced by the change is expanded into its callers)
+        out.append(dict(id="seed-" + sid, property=prop, expect=prop + "/",
+                        patch=os.path.join(os.path.dirname(mf), "patch.diff"), _file="seeded/" + sid))
+    # behaviour-preserving refactorings written by independent sub-agents (selftest/refactors/*.diff): every
+    # property's check must stay silent on each of them
+    for f in sorted(glob.glob(os.path.join(HERE, "refactors", "*.diff"))):
+        out.append(dict(id="refactor-" + os.path.basename(f)[:-5], property="*", silent=True, patch=f, _file="refactors"))
     return out
+
+
+def apply_patch(root, patch):
+    p = subprocess.run(["patch", "-p1", "-s", "-f", "--no-backup-if-mismatch", "-d", root, "-i", patch], capture_output=True, text=True)
+    if p.returncode != 0:
+        return "patch does not apply: " + (p.stdout + p.stderr).strip()[:200]
+    return None
 
 
 def apply_edits(root, edits):
@@ -43,14 +72,14 @@ def run_one(m, repo, keep):
     try:
         dst = os.path.join(tmp, "repo")
         subprocess.run(["rsync", "-a", "--exclude", ".git", repo + "/", dst + "/"], check=True)
-        err = apply_edits(dst, m["edits"])
+        err = apply_patch(dst, m["patch"]) if "patch" in m else apply_edits(dst, m["edits"])
         if err:
             return dict(id=m["id"], result="skipped", why="anchor gone: " + err)
         out = os.path.join(tmp, "out")
         os.makedirs(out)
         env = dict(os.environ, GOFLAGS="-mod=mod", GOPROXY="off", GOSUMDB="off", GOTOOLCHAIN="local")
         env.pop("GOWORK", None)
-        p = subprocess.run([BIN, "check", m["property"], "--repo", dst, "--out", out, "--known", os.path.join(VERIF, "known_findings.json")],
+        p = subprocess.run([BIN, "check", m.get("_prop", m["property"]), "--repo", dst, "--out", out, "--known", os.path.join(VERIF, "known_findings.json")],
                            capture_output=True, text=True, env=env)
         txt = p.stdout + p.stderr
         if p.returncode == 2:
@@ -80,7 +109,16 @@ def main():
     ap.add_argument("--keep", action="store_true")
     ap.add_argument("--json")
     a = ap.parse_args()
-    ms = [m for m in load_mutants() if (not a.prop or m["property"] == a.prop) and (not a.only or m["id"] == a.only)]
+    ms = []
+    for m in load_mutants():
+        if a.only and m["id"] != a.only:
+            continue
+        if m["property"] == "*":
+            if a.prop:
+                ms.append(dict(m, _prop=a.prop))
+            continue
+        if not a.prop or m["property"] == a.prop:
+            ms.append(m)
     if not ms:
         print("no mutants selected")
         return 0
